@@ -104,10 +104,25 @@ func (g *progGen) goal(depth int) *term.Term {
 		cut := g.pick(len(c.Args) + 1)
 		clos := term.C(c.S, c.Args[:cut]...)
 		return term.C("call", append([]*term.Term{clos}, c.Args[cut:]...)...)
-	case k < 93:
+	case k < 91:
 		// variable goal: G = goal, G
 		gv := g.freshVar()
 		return term.C(",", term.C("=", gv, g.call(g.pick(len(g.arity)))), gv)
+	case k < 94:
+		// a goal compiled at run time (call/N) holding an open list [E1,E2|T] whose tail was bound by an earlier
+		// goal: the goal compiler must see the binding
+		tv := g.freshVar()
+		i := g.pick(len(g.arity))
+		c := g.call(i)
+		open := term.PL(tv, g.term(1), g.term(1))
+		if len(c.Args) > 0 {
+			args := append([]*term.Term{}, c.Args...)
+			args[g.pick(len(args))] = open
+			c = term.C(c.S, args...)
+		} else {
+			c = term.C("=", open, g.term(2))
+		}
+		return term.C(",", term.C("=", tv, g.term(1)), term.C("call", c))
 	default:
 		return term.C("call", g.goal(depth-1))
 	}
@@ -125,6 +140,14 @@ func (g *progGen) conj(n, depth int) *term.Term {
 	gs := make([]*term.Term, n)
 	for i := range gs {
 		gs[i] = g.goal(depth)
+	}
+	if n >= 3 && g.pick(4) == 0 {
+		// the same sequence nested on the left: (((G1,G2),G3),G4)
+		t := gs[0]
+		for i := 1; i < n; i++ {
+			t = term.C(",", t, gs[i])
+		}
+		return t
 	}
 	t := gs[n-1]
 	for i := n - 2; i >= 0; i-- {
